@@ -343,7 +343,7 @@ func (a *AggregatePlan) Batch(ctx *ExecuteCtx) ([][]Column, error) {
 		if nrows == 0 {
 			return nil, nil
 		}
-		if nrows <= restSkips {
+		if nrows < restSkips {
 			a.skips += nrows
 		} else {
 			a.skips += restSkips
